@@ -94,6 +94,8 @@ let rec cstmt_of (t : Sexp.t) : cstmt =
   | L [A "sif"; c; th; rest] -> SIf (cexpr_of c, cblk_of th, celse_of rest)
   | L [A "sswitch"; v; cs] -> SSwitch (cexpr_of v, ccases_of cs)
   | L [A "sfor"; x; e; body; hasie; ie] -> SFor (xs (atom x), cexpr_of e, cblk_of body, bb hasie, cblk_of ie)
+  | L [A "scss"; A "none"; sfx] -> SCss (None, xs (atom sfx))
+  | L [A "scss"; e; sfx] -> SCss (Some (cexpr_of e), xs (atom sfx))
   | L [A "sforrange"; x; L (a1 :: rest); body; hasie; ie] ->
       SForRange (xs (atom x), cexpr_of a1, List.map cexpr_of rest, cblk_of body, bb hasie, cblk_of ie)
   | _ -> failwith ("bad cstmt " ^ to_string t)
